@@ -29,6 +29,64 @@ CLAIMED.update({
             "bucket numbering; conversion yields non-empty disjoint buckets; complete mode delivers m complete rankings; "
             "tied to the code per single step with a scripted random source.", GEN_NOTE + " The random module is scripted.", TECH),
 })
+PARTIAL_SOLVER = (" PARTIAL: the ILP solver (CBC / CPLEX) and igraph's components() are parameters of the model: theorems "
+                  "are conditional on an optimal feasible point / SCCs in topological order; the latter is checked on every "
+                  "sample. CPLEX itself is absent: its code path runs through a stand-in module backed by CBC.")
+CLAIMED.update({
+    "C03": ("DESIGN.md 6/C03", "Lean 4 theorems, one per algorithm model, that the consensus is well formed over exactly the "
+            "universe (Borda, Copeland, KwikSort for every pivot script, PickAPerm, BioConsert with any dense departures, the "
+            "ILP decoder for every feasible point, ParCons for any sub-solver returning a ranking of its component); the Lean "
+            "predicate is evaluated on the outputs of every configuration of the real code.", GEN_NOTE + PARTIAL_SOLVER, TECH),
+    "C04": ("DESIGN.md 6/C04", "Lean 4 theorems: on-demand score = definition and >= 0 (C04_lazy, C04_nonneg), BioConsert's "
+            "bookkeeping equals the true score of every returned ranking (C04_dstInit, C04_bioconsert), PickAPerm's minimum "
+            "(C10), ILP objective = score of the decoded ranking (C05_objective_decode); predicate evaluated on every "
+            "configuration's reported score before and after reading it.", GEN_NOTE + " The solver's own report of its "
+            "objective value is trusted (PuLP).", TECH),
+    "C05": ("DESIGN.md 6/C05", "Lean 4 theorems about the ILP the code builds: feasible 0/1 points = rankings with ties, "
+            "objective = Kemeny score, decoder inverse, optimal feasible point decodes to a global optimum for the plain, "
+            "PuLP-pruned and no-tie-pruned row sets, all-optima characterisation, selector falls back to PuLP; the exhaustive "
+            "oracle is proved correct (optScore_spec). Tied by comparing the emitted rows / objective and end-to-end optimality.",
+            GEN_NOTE + PARTIAL_SOLVER, TECH),
+    "C06": ("DESIGN.md 6/C06", "Lean 4 theorems: no back arc between components, L4 regrouping, the partition admits an "
+            "optimum, all-tied components, concatenation of per-component optima is a global optimum, flag set iff nothing "
+            "delegated and truthful given optimal sub-solutions, projection lemma (and what goes wrong when rankings are "
+            "dropped); tied by comparing partition / flag / all-tied mask and end-to-end against exhaustive optima.",
+            GEN_NOTE + PARTIAL_SOLVER, TECH),
+    "C07": ("DESIGN.md 6/C07", "Lean 4 theorems: the fusion loop terminates within its fuel, returns a partition merging "
+            "consecutive components whose consecutive groups are fully robust, and EVERY optimal consensus respects it "
+            "(C07_parfront); the consistency walk terminates and decides exactly the stated relation (C07_consistent_iff). "
+            "Tied on arcs, robust arcs, partition, walk result.", GEN_NOTE + " igraph's SCC order is an assumption checked per sample.", TECH),
+    "C08": ("DESIGN.md 6/C08", "Lean 4 theorems: delta arrays are exact score differences, a search returning nothing has "
+            "inspected every target, moves renumber densely, a sweep without move certifies a local optimum, for every "
+            "departure ranking, with or without starters (C08_improveOne, C08_run). Tied on the numba kernels directly.",
+            GEN_NOTE + " Exact arithmetic; termination of the sweep loop is a hypothesis (flag).", TECH),
+    "C09": ("DESIGN.md 6/C09", "Lean 4 theorems: every accepted move decreases the score, the reported score is the minimum "
+            "over departures and at most each departure's score, all returned rankings share it (C09_best, C09_holds); "
+            "departure rows tied to the real _departure_rankings array.", GEN_NOTE, TECH),
+    "C10": ("DESIGN.md 6/C10", "Lean 4 theorem C10_holds: members, minimality, completeness of the returned list, refusal "
+            "exactly for incomplete data under a non-unifying scheme.", GEN_NOTE, TECH),
+    "C11": ("DESIGN.md 6/C11", "Lean 4 theorems for EVERY pivot script: count formulas = definition, per-step placement, "
+            "pivot independence under coherence, unanimous datasets returned unchanged; tied with all pivot scripts "
+            "enumerated on small universes.", GEN_NOTE, TECH),
+    "C12": ("DESIGN.md 6/C12", "Lean 4 theorems C12_holds / C12_perm: order by mean positional score per variant and family, "
+            "refusal rule, independence of ranking order.", GEN_NOTE + " Mean comparison by cross-multiplication.", TECH),
+    "C13": ("DESIGN.md 6/C13", "Lean 4 theorem C13_holds: victory classes, scores, totals, order.", GEN_NOTE, TECH),
+    "C14": ("DESIGN.md 6/C14", "Lean 4 theorems over all nested configurations: relevant => never refused, complete never "
+            "refused, exact refusal for Borda / PickAPerm / BioCo / BioConsert from them; guards of the concrete models; tied "
+            "on random nested configurations incl. the stand-in CPLEX ones.", GEN_NOTE + PARTIAL_SOLVER, TECH),
+    "C15": ("DESIGN.md 6/C15", "PARTIAL by nature: in the Lean model every call is read-only by construction (C15_frame, "
+            "C15_history_independent, C15_repeatable); in-place mutation / aliasing in the Python heap is OBSERVED: complete "
+            "state snapshots before and after every call of random histories on shared objects, each call repeated on fresh "
+            "copies.", GEN_NOTE + " Heap mutation is observed, not proved.", "Lean 4 state-machine model + snapshot differential on shared objects"),
+    "C16": ("DESIGN.md 6/C16", "Lean 4 invariant proved for construction and every mutator, hence every reachable state "
+            "(C16_reachable), unification and projection; tied by comparing the full view snapshot after every operation of "
+            "random histories.", GEN_NOTE, TECH),
+    "C17": ("DESIGN.md 6/C17", "Lean 4 theorems: equality iff a reordering matches ranking by ranking; equivalence relation; "
+            "invariance under ranking order and member order; multiplicities matter.", GEN_NOTE, TECH),
+    "C18": ("DESIGN.md 6/C18", "Lean 4 model of the index-based scanner with Python's string primitives: totality (only "
+            "ValueError) for every text, round trip of rendered rankings, file round trip; tied on renderings, mutated "
+            "renderings and random strings over the format alphabet.", GEN_NOTE + " ASCII texts.", TECH),
+})
 NOT_YET = "model/theorems not built yet in this round (work in progress; see DESIGN.md section 9)"
 
 checks = []
